@@ -1113,6 +1113,70 @@ class G:
                     return blk[n]
             return None
 
+        def yield_stmts(stack, y):
+            """statements that are neither a 令 nor a call statement, with `（域：n）得到y` somewhere INSIDE an expression:
+            得到 binds y (a constant) in the block that evaluates the expression, whatever the position"""
+            call = Call('域', [Num(str(self.fresh()))], yld=y)
+            show = ExprS(Call('显示', [Var(y)]))
+            k = rng.randrange(8)
+            assignable = [m for m in names if visible(stack, m) is False and m != y]
+            if k == 0:        # condition of a nested branch
+                return [If(Bin('gt', call, Num('0')), [show]), show]
+            if k == 1:        # condition of a nested loop that is false at once / left at once
+                if rng.random() < 0.5:
+                    return [While(Bin('lt', call, Num('0')), [ExprS(Call('显示', [Num('0')]))]), show]
+                return [While(Bin('gt', call, Num('0')), [show, Break()])]
+            if k == 2 and assignable:     # right-hand side of an assignment
+                z = rng.choice(assignable)
+                return [ExprS(Assign(Var(z), call)), ExprS(Call('显示', [Var(z), Var(y)]))]
+            if k == 3:        # inside a list literal
+                return [ExprS(Call('显示', [Arr([Num('1'), call])])), show]
+            if k == 4:        # operand of an arithmetic expression that is a call argument
+                return [ExprS(Call('显示', [Bin('+', call, Num('1'))])), show]
+            if k == 5:        # the collection of a nested 遍历
+                return [Iter(['子'], Arr([call, Num('2')]), [ExprS(Call('显示', [Var('子')]))]), show]
+            if k == 6:        # argument of another call whose own result is bound too (different name)
+                return [ExprS(Call('显示', [Call('域', [call])])), show]
+            return [ExprS(Call('显示', [call]))] + ([show] if rng.random() < 0.7 else [])   # call argument
+
+        def yield_block(stack):
+            """a branch or loop body WITHOUT any 令 / call statement, whose expressions bind names through 得到; loops run the
+            body several times (every pass is a new block: no redeclaration); afterwards the bound name is read (not defined,
+            or the outer variable it shadowed, unchanged)"""
+            out = []
+            ys = rng.sample(names + ['丁', '戊'], rng.choice([1, 1, 2]))
+            wrap = rng.randrange(5)
+            if wrap == 3 and visible(stack, '次') is None:
+                out.append(Decl(['次'], Num('0')))
+                stack[-1]['次'] = False
+            inner = stack + [{}]
+            if wrap == 2:
+                inner = stack + [{'项': False}, {}]
+            body = []
+            vis = [m for m in names if visible(inner, m) is not None and m not in ys]
+            if vis and rng.random() < 0.4:
+                body.append(ExprS(Call('显示', [Var(rng.choice(vis))])))
+            for y in ys:
+                body += yield_stmts(inner, y)
+                inner[-1][y] = True
+            if wrap == 0:
+                out.append(If(Var('真'), body))
+            elif wrap == 1:
+                out.append(If(Var('假'), [ExprS(Call('显示', [Num('0')]))], els=body))
+            elif wrap == 2:
+                out.append(Iter(['项'], Arr([Num(str(i)) for i in range(1, rng.randint(2, 4))]), body))
+            elif wrap == 3:
+                out.append(ExprS(Assign(Var('次'), Num('0'))))
+                out.append(While(Bin('lt', Var('次'), Num(str(rng.randint(2, 3)))),
+                                 [ExprS(Assign(Var('次'), Bin('+', Var('次'), Num('1'))))] + body))
+            else:
+                out.append(Iter(['项'], Arr([Num('1'), Num('2')]), [If(Bin('xeq', Var('项'), Var('项')), body)]))
+            # after the block: the names it bound are gone
+            for y in ys:
+                if visible(stack, y) is not None or rng.random() < 0.35:
+                    out.append(ExprS(Call('显示', [Var(y)])))
+            return out
+
         def block(depth, stack, count):
             out = []
             stack = stack + [{}]
@@ -1138,9 +1202,11 @@ class G:
                     ok = v is not None and v is False
                     if ok or rng.random() < bad:
                         out.append(ExprS(Assign(Var(n), Num(str(self.fresh())))))
-                elif r < 0.65:
+                elif r < 0.58:
                     if visible(stack, n) is not None or rng.random() < bad:
                         out.append(ExprS(Call('显示', [Var(n)])))
+                elif r < 0.65:
+                    out.extend(yield_block(stack))
                 elif r < 0.78 and depth > 0:
                     out.append(If(Var('真'), block(depth - 1, stack, rng.randint(1, 4))))
                 elif r < 0.88 and depth > 0:
@@ -1187,7 +1253,25 @@ class G:
         else:
             inner.append(Break())
         body.append(Func('查找', ['目标', '库'], [Iter(lvs, coll, inner), Ret(Num('-1'))]))
+        # method / handler bodies without 令 that bind a name through 得到 inside an expression; called twice. (The bound
+        # name is never one of the method's own inputs: whether that is a redeclaration is where the pinned code and the
+        # spec part — reported, not generated.)
+        probes = []
+        if rng.random() < 0.15:
+            y = '丁'
+            body.append(Func('探', ['入'], [ExprS(Call('显示', [Arr([Call('域', [Var('入')], yld=y)])])), Ret(Var(y))]))
+            probes.append('探')
+        if rng.random() < 0.15:
+            y = '丁'
+            body.append(Func('险', ['入'], [Throw('异常', [Str('x')])],
+                             catches=[('异常', [ExprS(Call('显示', [Bin('+', Call('域', [Num('1')], yld=y), Num('1'))])), Ret(Var(y))])]))
+            probes.append('险')
         main = block(3, [], rng.randint(4, 10))
+        for pn in probes:
+            at = rng.randint(0, len(main))
+            main[at:at] = [ExprS(Call('显示', [Call(pn, [Num('1')])])), ExprS(Call('显示', [Call(pn, [Num('2')])]))]
+        if probes and rng.random() < 0.3:
+            main.append(ExprS(Call('显示', [Var(rng.choice(['入', '丁']))])))
         if rng.random() < 0.6:
             main.append(ExprS(Call('显示', [Call('查找', [Num(str(rng.randint(1, 3))), Num('0')])])))
             probe = rng.random()
